@@ -33,6 +33,7 @@ OBLIGATIONS = [
     "VgiVerif.C43.C43_select",
     "VgiVerif.C43.C43_select_only",
     "VgiVerif.C43.C43_injection",
+    "VgiVerif.C43.C43_injection_identity",
     "VgiVerif.C43.C43_missing",
     "VgiVerif.C43.C43_zero_elements",
     "VgiVerif.C43.C43_outcomes",
@@ -42,6 +43,10 @@ TRUSTED = [
     "urllib.parse.unquote is an environment function (model parameter; the driver gets the real function as a table)",
     "CPython str.strip / str.lower / str.upper as extracted tables (Gen/Xfcc.lean), validated differentially on every run",
     "falcon.Request.get_header is modelled as an Optional[str]; Falcon/WSGI header transport is exercised, not modelled",
+]
+PARTIAL = [
+    "header transport (WSGI/Falcon trimming, latin-1, folding) is exercised end to end on the wire, not modelled",
+    "the caller-supplied validate callback is abstract: the theorems say which element it receives",
 ]
 RULE = (
     "headers rendered from an XFCC grammar AST (1-6 elements of 1-7 key=value pairs; keys = case variants of "
